@@ -5,13 +5,15 @@ C04 — kernel-checked witnesses.
    failed on the pinned tree, evaluated on the model of the code as it is now.
 2. Documented limits of the theorems in Props/C04.lean, shown to be sharp:
    * alignments above 16 on automatic objects (finding `C04-overaligned-auto`): assign_lvar_offsets makes the offset
-     from %rbp a multiple of the alignment, but %rbp is only 16-byte aligned;
+     from %rbp a multiple of the alignment, but %rbp is only 16-byte aligned; `C04_frame_aligned` proves min(align, 16),
+     `C04_finding_overaligned_sharp` that nothing more holds for any function with such an object;
    * alloca / VLA requests of 2^32 - 15 bytes or more are truncated by `and $0xfffffff0, %edi`.
 -/
 import ChibiVerif.Model.BitField
 import ChibiVerif.Spec.C04Spec
 import ChibiVerif.Model.Frame
 import ChibiVerif.Model.Alloca
+import ChibiVerif.Props.C04
 
 namespace ChibiVerif.Findings.C04
 open ChibiVerif.BitField ChibiVerif.Spec.C04 ChibiVerif.Frame ChibiVerif.Alloca ChibiVerif.Gen.C04
@@ -46,6 +48,27 @@ theorem C04_finding_overaligned_offset :
 /-- … but %rbp is only guaranteed to be a multiple of 16: with %rbp = 16 (mod 32) the object is misaligned.
     The frame theorem cannot be strengthened to absolute alignment for alignments that do not divide 16. -/
 theorem C04_finding_overaligned_auto : ∃ rbp : Int, rbp % 16 = 0 ∧ (rbp + (-32)) % 32 ≠ 0 := ⟨48, by decide⟩
+
+/-- the limit of `C04_frame_aligned` is sharp for **every** frame, not only for the witness: whatever the function, an
+    object of the frame whose alignment is a power of two above 16 is misaligned when %rbp ≡ 16 modulo that alignment
+    (witness: %rbp = 16) — which the psABI allows, it only promises a multiple of 16.  So no statement stronger than
+    `min(align, 16)` holds for any function that has such an object. -/
+theorem C04_finding_overaligned_sharp (body params : List Var) (hwf : ∀ v ∈ body ++ params, 0 ≤ v.size ∧ 0 < v.align)
+    (s : Slot) (hs : s ∈ frameSlots body params) (hst : s.stack = false) (k : Nat) (hk : 5 ≤ k) (hal : s.align = 2 ^ k) :
+    ∃ rbp : Int, rbp % 16 = 0 ∧ (rbp + s.off) % s.align ≠ 0 := by
+  obtain ⟨_, _, _, h⟩ := ChibiVerif.Props.C04.C04_frame_disjoint body params hwf
+  obtain ⟨_, _, h3⟩ := (h s hs).2 hst
+  refine ⟨16, by decide, ?_⟩
+  have hge : (32 : Int) ≤ s.align := by
+    obtain ⟨j, rfl⟩ : ∃ j, k = 5 + j := ⟨k - 5, by omega⟩
+    have e : (2 : Int) ^ (5 + j) = 32 * 2 ^ j := by rw [Int.pow_add]; rfl
+    have : (0 : Int) < 2 ^ j := Int.pow_pos (by decide)
+    rw [hal, e]; omega
+  rw [Int.add_emod, h3, Int.add_zero, Int.emod_emod_of_dvd _ (Int.dvd_refl _), Int.emod_eq_of_lt (by decide) (by omega)]
+  decide
+
+/-- the witness frame is an instance -/
+example : (⟨-32, 1, 32, false⟩ : Slot) ∈ frameSlots [⟨1, 32, false, false⟩, ⟨8, 8, false, false⟩] [] := by decide
 
 /-! ### limit of alloca: the bound `n < 2^32 - 15` of `C04_alloca_size` is sharp -/
 theorem C04_limit_alloca_truncates : allocaSize (BitVec.ofNat 64 (2 ^ 32 - 15)) = 0 ∧ allocaSize (BitVec.ofNat 64 (2 ^ 32 + 1)) = 16 := by
